@@ -321,7 +321,7 @@ class ReaderRunner(object):
 
 
 def check_fixpoint(rule, construct, file, rows, base, reader, method, node_vars, want_class, py, wmod, extra_locals=None,
-                   fixed=None, max_cases=5000, opaque_attrs=(), reader_atoms=None):
+                   fixed=None, max_cases=5000, opaque_attrs=(), reader_atoms=None, thorough=False):
     """enumerate valuations; report the first few that break W(R(W(m))) == W(m)"""
     wenv = Env(py, wmod)
     uses = model_atoms(rows, base)
@@ -376,6 +376,18 @@ def check_fixpoint(rule, construct, file, rows, base, reader, method, node_vars,
             v = dict(default)
             v.update(zip(g, combo))
             valuations.append(v)
+    if thorough:
+        # pairwise interaction coverage across groups: every pair of model attributes jointly over their domains
+        for i, a in enumerate(atoms):
+            for b in atoms[i + 1:]:
+                if find(a) == find(b):
+                    continue
+                for va in dom[a]:
+                    for vb in dom[b]:
+                        v = dict(default)
+                        v[a] = va
+                        v[b] = vb
+                        valuations.append(v)
     bad = []
     n = 0
     crashes = []
